@@ -221,8 +221,30 @@ type event struct {
 	Lookbacks []evLookback `json:"lookbacks"`
 }
 
+// concRing is the concrete content of one logged ring version (side file $VERIF_TRACE_CONCRETE,
+// never read by TLC): what bin/check attaches to a rejected answer so that it can be replayed.
+type concMember struct {
+	ID     int      `json:"id"`
+	Zone   string   `json:"zone,omitempty"`
+	Tokens []uint32 `json:"tokens"`
+	RO     bool     `json:"read_only,omitempty"`
+	Reg    int64    `json:"registered_ts,omitempty"`
+	Rots   int64    `json:"read_only_updated_ts,omitempty"`
+	State  string   `json:"state,omitempty"`
+	Sts    int64    `json:"state_ts,omitempty"`
+}
+type concRing struct {
+	Line      int          `json:"line"` // line of the "ring" event in the trace
+	Kind      string       `json:"kind"`
+	ZA        bool         `json:"zone_awareness"`
+	Stamp     int64        `json:"stamp"`
+	EpochUnix int64        `json:"epoch_unix"` // trace second s = unix second epoch_unix + s; queries are issued at now + 250ms
+	Members   []concMember `json:"members"`
+}
+
 type recorder struct {
 	w        *abs.NDJSONWriter
+	cw       *abs.NDJSONWriter
 	res      *abs.Result
 	rnd      *rand.Rand
 	epoch    time.Time
@@ -353,6 +375,14 @@ func (r *recorder) instHistory(p instPlan) {
 		}
 		r.emit(event{E: "ring", T: &stamp, Mem: mem})
 		r.versions++
+		if r.cw != nil {
+			cr := concRing{Line: r.w.N, Kind: "inst", ZA: p.za, Stamp: stamp, EpochUnix: r.epoch.Unix()}
+			for _, id := range w.ids() {
+				in := w.insts[id]
+				cr.Members = append(cr.Members, concMember{ID: id, Zone: zoneName(in.zone), Tokens: in.tokens, RO: in.ro, Reg: in.reg, Rots: in.rots})
+			}
+			_ = r.cw.Write(cr)
+		}
 	}
 	emitRing(0)
 
@@ -576,8 +606,15 @@ func (r *recorder) partHistory(p partPlan) {
 		}
 		r.emit(event{E: "ring", T: &stamp, Mem: mem})
 		r.versions++
+		if r.cw != nil {
+			cr := concRing{Line: r.w.N, Kind: "part", Stamp: stamp, EpochUnix: r.epoch.Unix()}
+			for _, id := range pids() {
+				q := ps[id]
+				cr.Members = append(cr.Members, concMember{ID: id, Tokens: q.tokens, State: stName(q.st), Sts: q.sts})
+			}
+			_ = r.cw.Write(cr)
+		}
 	}
-	emitRing(0)
 
 	query := func(client int, pr *ring.PartitionRing, now time.Time, tenants []string, lookbacks []int) {
 		nowSec := r.sec(now)
@@ -656,6 +693,7 @@ func (r *recorder) partHistory(p partPlan) {
 	if c1 == nil {
 		return
 	}
+	emitRing(0)
 	for step := 0; step <= p.events; step++ {
 		T := int64(startSec + step)
 		r.sleepUntil(time.Duration(T)*time.Second + 250*time.Millisecond)
@@ -767,6 +805,12 @@ func TestRecord(t *testing.T) {
 	}
 	rnd := rand.New(rand.NewSource(abs.Seed()*7919 + 12))
 	rec := &recorder{w: w, res: res, rnd: rnd, corrupt: os.Getenv("VERIF_CORRUPT")}
+	if cp := os.Getenv("VERIF_TRACE_CONCRETE"); cp != "" {
+		if rec.cw, err = abs.NewNDJSONWriter(cp); err != nil {
+			t.Fatal(err)
+		}
+		defer rec.cw.Close()
+	}
 	thorough := abs.Tier() == "thorough"
 	mode := os.Getenv("VERIF_C12_PART") // "small" | "large" | "" (both)
 
